@@ -4,7 +4,7 @@ CONSTANT Limits = {1, 2, 3}
 CONSTANT MinEdges = 4
 CONSTANT MaxEdges = 4
 CONSTANT Sample = TRUE
-CONSTANT LegalOnly = FALSE
+CONSTANT LegalOnly = TRUE
 CONSTRAINT Bounded
 VIEW View
 INVARIANT Protocol
